@@ -79,10 +79,26 @@ package config
 //@ func (*Config).validateAdminAPI
 //@   props C18
 //@   ensures exact: result == nil <==> docAdmin(c)
+// C18 "starts a working proxy": the request-id / trace header names are set on every forwarded request, and the
+// transport refuses a request with an invalid header name (every request would be answered 502): a configured name
+// must be an RFC 7230 token.
+//@ pred tokenByte(b int) := (97 <= b && b <= 122) || (65 <= b && b <= 90) || (48 <= b && b <= 57) || b == 33 || b == 35 || b == 36 || b == 37 || b == 38
+//@      || b == 39 || b == 42 || b == 43 || b == 45 || b == 46 || b == 94 || b == 95 || b == 96 || b == 124 || b == 126
+//@ pred tokenName(s string) := len(s) > 0 && (forall k int :: {byteAt(s, k)} 0 <= k && k < len(s) ==> tokenByte(byteAt(s, k)))
+//@ pred headerOK(enabled bool, h string) := enabled && trim_space(h) != "" ==> tokenName(trim_space(h))
+//@ pred docHeaders(c *Config) := headerOK(c.Logging.RequestID.Enabled, c.Logging.RequestID.Header) && headerOK(c.Logging.Trace.Enabled, c.Logging.Trace.Header)
+//@ func validHeaderName
+//@   props C18
+//@   ensures exact: result == tokenName(s)
+//@ loop validHeaderName #0
+//@   props C18
+//@   invariant idx: 0 <= i && i <= len(s) && len(s) > 0
+//@   invariant seen: forall k int :: {byteAt(s, k)} 0 <= k && k < i ==> tokenByte(byteAt(s, k))
+//@   decreases len(s) - i
 //@ func (*Config).validateLogging
 //@   props C18
-//@   ensures documented_values_accepted: docLevel(c.Logging.Level) && docFormat(c.Logging.Format) ==> result == nil
-//@   ensures unknown_values_rejected: result == nil ==> tolLevel(c.Logging.Level) && tolFormat(c.Logging.Format)
+//@   ensures documented_values_accepted: docLevel(c.Logging.Level) && docFormat(c.Logging.Format) && docHeaders(c) ==> result == nil
+//@   ensures unknown_values_rejected: result == nil ==> tolLevel(c.Logging.Level) && tolFormat(c.Logging.Format) && docHeaders(c)
 
 //@ pred docBackend(b BackendConfig) := b.Name != "" && b.Address != "" && b.Weight >= 0
 //@ pred docBackends(c *Config) := len(c.Backends) > 0 && (forall i int :: {c.Backends[i]} 0 <= i && i < len(c.Backends) ==> docBackend(c.Backends[i]))
@@ -125,8 +141,8 @@ package config
 //@      && docHealth(c) && docRateLimit(c) && docBreaker(c) && docMetrics(c) && docAdmin(c) && docListeners(c)
 //@ func (*Config).Validate
 //@   props C18
-//@   ensures documented_configurations_load: docAllButLogging(c) && docLevel(c.Logging.Level) && docFormat(c.Logging.Format) ==> result == nil
-//@   ensures invalid_configurations_rejected: result == nil ==> docAllButLogging(c) && tolLevel(c.Logging.Level) && tolFormat(c.Logging.Format)
+//@   ensures documented_configurations_load: docAllButLogging(c) && docLevel(c.Logging.Level) && docFormat(c.Logging.Format) && docHeaders(c) ==> result == nil
+//@   ensures invalid_configurations_rejected: result == nil ==> docAllButLogging(c) && tolLevel(c.Logging.Level) && tolFormat(c.Logging.Format) && docHeaders(c)
 
 // ---- loading a file: keys that an enabled section leaves out take their documented defaults.
 // The README's "Basic Configuration" enables the circuit breaker giving only failure_threshold and enables
